@@ -23,6 +23,7 @@ use types::*;
 pub type TApp = App<BankKeeper, MockApi, MockStorage, XModule, WasmKeeper<XMsg, XQuery>, StakeKeeper, DistributionKeeper, IbcFailingModule, GovFailingModule, StargateFailing>;
 
 pub struct World {
+    pub prefix: &'static str,
     pub app: TApp,
     pub fx: Fixed,
     pub st: MState,
@@ -38,7 +39,17 @@ const WASM_CONTRACTS_PREFIX: &[u8] = b"\x00\x04wasm\x00\x09contracts";
 
 impl World {
     pub fn new(setup: &Setup) -> World {
-        let api = MockApi::default();
+        World::with_prefix(setup, "cosmwasm")
+    }
+
+    /// makes this World's address codec the current one for the reference interpreter
+    pub fn enter(&self) {
+        model::PREFIX.with(|p| p.set(self.prefix));
+    }
+
+    pub fn with_prefix(setup: &Setup, prefix: &'static str) -> World {
+        model::PREFIX.with(|p| p.set(prefix));
+        let api = MockApi::default().with_prefix(prefix);
         let users: Vec<String> = (0..N_USERS).map(|i| api.addr_make(&format!("user{}", i)).to_string()).collect();
         let fresh: Vec<String> = (0..3).map(|i| api.addr_make(&format!("fresh{}", i)).to_string()).collect();
         let nowhere = api.addr_make("nowhere").to_string();
@@ -55,14 +66,14 @@ impl World {
             }
             inits.push((Addr::unchecked(u.clone()), coins));
         }
-        let app: TApp = BasicAppBuilder::<XMsg, XQuery>::new_custom().with_custom(XModule).build(|router, _api, storage| {
+        let app: TApp = BasicAppBuilder::<XMsg, XQuery>::new_custom().with_api(MockApi::default().with_prefix(prefix)).with_custom(XModule).build(|router, _api, storage| {
             for (a, c) in inits {
                 router.bank.init_balance(storage, &a, c).unwrap();
             }
         });
         let b = app.block_info();
         st.block = (b.height, b.time.nanos(), b.chain_id);
-        let mut w = World { app, fx: Fixed { codes: BTreeMap::new(), users, fresh, nowhere }, st, ever: BTreeMap::new(), next_tag: 0 };
+        let mut w = World { prefix, app, fx: Fixed { codes: BTreeMap::new(), users, fresh, nowhere }, st, ever: BTreeMap::new(), next_tag: 0 };
         for c in &setup.codes {
             let _ = w.store(c);
         }
@@ -84,6 +95,8 @@ impl World {
         let tag = self.next_tag % MAX_TAGS;
         self.next_tag += 1;
         let own = spec.own_checksum.map(|s| Checksum::generate(&[s, 0x77]));
+        self.enter();
+        // App::store_code always uses the default codec for the creator
         let default_creator = MockApi::default().addr_make("creator").to_string();
         let next_auto = self.fx.codes.keys().last().copied().unwrap_or(0) + 1;
         // reference verdict
@@ -252,6 +265,7 @@ impl World {
     /// `concrete`: use these already resolved top-level messages instead of resolving the
     /// transaction's symbolic ones against the current state
     pub fn run_variant_with(&mut self, tx: &Tx, faults: &BTreeSet<Site>, concrete: Option<(String, Vec<CosmosMsg<XMsg>>)>) -> Outcome {
+        self.enter();
         let mut discs: Vec<Disc> = vec![];
         let pre_scan = scan(self.app.storage());
         let mut it = Interp::new(self.st.clone(), &self.fx, tx, faults);
@@ -452,6 +466,7 @@ impl World {
     }
 
     pub fn apply_block(&mut self, dh: u64, dt: u64, set: bool, chain: Option<u8>) -> Vec<Disc> {
+        self.enter();
         let mut b = self.app.block_info();
         b.height += dh;
         b.time = b.time.plus_seconds(dt);
@@ -683,6 +698,7 @@ impl TreeCheck {
 
     /// TxKind::Queries: purity, idempotence, agreement with the committed state (C10)
     pub fn app_queries(&self, w: &mut World, tx: &Tx, qs: &[AppQuery]) -> Vec<Disc> {
+        w.enter();
         let mut out = vec![];
         let none = BTreeSet::new();
         for q in qs {
@@ -833,10 +849,10 @@ impl Check for TreeCheck {
 
     fn budget(id: &str, tier: Tier) -> Budget {
         let cases = match (fault_enumerating(id), tier) {
-            (true, Tier::Quick) => 8000,
-            (true, Tier::Thorough) => 120_000,
-            (false, Tier::Quick) => 24_000,
-            (false, Tier::Thorough) => 400_000,
+            (true, Tier::Quick) => 16_000,
+            (true, Tier::Thorough) => 200_000,
+            (false, Tier::Quick) => 40_000,
+            (false, Tier::Thorough) => 600_000,
         };
         Budget { cases, max_bytes: if tier.is_thorough() { 20000 } else { 10000 } }
     }
